@@ -4,6 +4,7 @@ import (
 	"fmt"
 	"regexp"
 	"testing"
+	"time"
 
 	"pgregory.net/rapid"
 
@@ -249,7 +250,7 @@ func genC11(framed bool) func(t *rapid.T) *C11Case {
 
 func checkC11(test string) func(c *C11Case, rec *evid.Rec) []pbt.Violation {
 	return func(c *C11Case, rec *evid.Rec) (vs []pbt.Violation) {
-		done := pbt.Watch("C11", test, c)
+		done := pbt.WatchFor(60*time.Second, "C11", test, c)
 		defer done()
 		for _, md := range modes {
 			e, err := build.Empty(&c.Tpl)
